@@ -972,6 +972,121 @@ def hand_random(rng, n):
     return cases
 
 
+# ---------------------------------------------------------------- the three crates together (mode full)
+def _full_mut(rng, length):
+    """one applicable (mostly) direct call in ovec syntax, and the new length"""
+    for _ in range(30):
+        k = rng.randrange(11)
+        x = rng.randrange(40)
+        if k == 0:
+            a = [rng.randrange(40) for _ in range(rng.randrange(1, 4))]
+            return "append" + vec(a), length + len(a)
+        if k == 1 and rng.random() < 0.3:
+            return "clear", 0
+        if k == 2:
+            return "push_front(%d)" % x, length + 1
+        if k in (3, 10):
+            return "push_back(%d)" % x, length + 1
+        if k == 4 and length > 0:
+            return "pop_front", length - 1
+        if k == 5 and length > 0:
+            return "pop_back", length - 1
+        if k == 6:
+            return "insert(%d,%d)" % (rng.randrange(length + 1), x), length + 1
+        if k == 7 and length > 0:
+            return "set(%d,%d)" % (rng.randrange(length), x), length
+        if k == 8 and length > 0:
+            return "remove(%d)" % rng.randrange(length), length - 1
+        if k == 9 and length > 0:
+            t = rng.randrange(length)
+            return "truncate(%d)" % t, t
+    return "push_back(1)", length + 1
+
+
+def _full_lim(rng, silent_ok):
+    r = rng.random()
+    n = rng.randrange(7)
+    if r < 0.45:
+        return "L.set(%d)" % n
+    if r < 0.6:
+        return "L.setne(%d)" % n
+    if r < 0.7:
+        return "L.sethash(%d)" % n
+    if r < 0.85:
+        return "L.update(%d)" % n
+    return "L.updif(%d,%d)" % (n, 1 if (not silent_ok or rng.random() < 0.7) else 0)
+
+
+def full_exhaustive(maxlen=3):
+    """after `append[1,2,3,4] ; A ; D`: every sequence of <= maxlen events over a small alphabet of vector
+    calls, limit calls and single polls, then a drain; both adapters, both observable kinds, capacities
+    1 (every second update lags) and 16"""
+    alpha = ["push_back(9)", "pop_front", "insert(1,8)", "remove(0)", "clear", "L.set(0)", "L.set(1)", "L.set(5)",
+             "L.setne(2)", "L.updif(3,0)", "L.update(3)", "P", "L.drop", "dropvec", "tb ; t.push_front(7) ; t.pop_back ; tc"]
+    cases = []
+    for kind in ("head", "skip"):
+        for ok in "us":
+            for cap in (1, 16):
+                for n in range(1, maxlen + 1):
+                    for seq in itertools.product(alpha, repeat=n):
+                        cases.append("cap=%d %s 2 %s :: append[1,2,3,4] ; A ; D ; %s ; D ; push_back(6) ; L.set(4) ; D"
+                                     % (cap, kind, ok, " ; ".join(seq)))
+    return cases
+
+
+def full_random(rng, n, maxops=40):
+    cases = []
+    for _ in range(n):
+        kind = rng.choice(("head", "skip"))
+        cap = rng.choice((1, 1, 2, 3, 4, 8, 16))
+        limit0 = rng.randrange(6)
+        length = 0
+        evs = []
+        if rng.random() < 0.8:
+            a = [rng.randrange(40) for _ in range(rng.randrange(1, 7))]
+            evs.append("append" + vec(a))
+            length = len(a)
+        pre = rng.randrange(0, 4)
+        attached = False
+        silent_ok = rng.random() < 0.3
+        nops = rng.randrange(4, maxops)
+        for i in range(nops):
+            if not attached and i >= pre:
+                evs.append("A")
+                attached = True
+                continue
+            r = rng.random()
+            if r < 0.38:
+                m, length = _full_mut(rng, length)
+                evs.append(m)
+            elif r < 0.46:
+                body = []
+                tl = length
+                for _ in range(rng.randrange(1, 5)):
+                    m, tl = _full_mut(rng, tl)
+                    body.append("t." + m)
+                    if rng.random() < 0.08:
+                        body.append("t.rollback")
+                        tl = length
+                endk = "tc" if rng.random() < 0.8 else "td"
+                if endk == "tc":
+                    length = tl
+                evs.append("tb ; " + " ; ".join(body) + " ; " + endk)
+            elif r < 0.66:
+                evs.append(_full_lim(rng, silent_ok))
+            elif r < 0.8:
+                evs.append("P")
+            elif r < 0.97:
+                evs.append("D")
+            elif r < 0.985:
+                evs.append("L.drop")
+            else:
+                evs.append("dropvec")
+        evs.append("D")
+        cases.append("cap=%d %s %d %s :: %s" % (cap, kind, limit0, rng.choice("us"), " ; ".join(evs)))
+    return cases
+
+
 # ---------------------------------------------------------------- forced thread schedules (mode conc)
 def conc_all_schedules(setup, ops, length):
     n = len(ops)
